@@ -470,6 +470,38 @@ def body_filter_xml(*a):
     return _filter_body(_calq.build_xml, *a)
 
 
+def body_text_menu(vi, negate):
+    """A SUMMARY and a LANGUAGE parameter from a menu of case pairs (cased non-ASCII letters, letters whose Unicode
+    case mapping expands or lands in ASCII) against every text-match of the menu, both collations, as prop-filter and
+    as param-filter text, through the filter API and through parsed XML: i;ascii-casemap folds a-z only."""
+    from xv.core import pick, untraced
+    from xv.harness.C12 import CASE_MENU
+    vi, negate = pick(vi, len(CASE_MENU)), (True if negate else False)
+    with untraced():
+        value = CASE_MENU[vi]
+        comp = _calq.component(0, True, value, True, value, True, 100, False, False, 0)
+        f, model = _calq.calendar([comp])
+        for text in CASE_MENU:
+            for coll in range(len(_calq.COLLS)):
+                for shape in ("prop-text", "param-text"):
+                    spec = _calq.spec(shape, 0, text, coll, negate, 0, 1)
+                    want = O.match_filter(spec, model, contains=True)
+                    if ctx.kf("C11-text-match-equality") and O.match_filter(spec, model, contains=False) != want:
+                        continue
+                    for build in (_calq.build_api, _calq.build_xml):
+                        if bool(build(shape, 0, text, coll, negate, 0, 1).check("x.ics", f)) != want:
+                            return (False, shape + ":" + _calq.COLLS[coll])
+        return (True, "ascii" if value.isascii() else "non-ascii")
+
+
+def h_text_menu(vi: int, negate: bool) -> bool:
+    """
+    pre: 0 <= vi < 32
+    post: _
+    """
+    return run(body_text_menu, vi, negate)
+
+
 _FILTER_SIG = """n: int, k1: int, hs1: bool, s1: str, hl1: bool, l1: str, d1: int, k2: int, hs2: bool, s2: str,
 d2: int, is_date: bool, has_end: bool, e1: int, kindf: int, text: str, coll: int, negate: bool, start: int, end: int"""
 
@@ -694,6 +726,14 @@ HARNESSES = [
         assumptions=_TR_ASSUME,
         encodes=["xandikos.icalendar.apply_time_range_vfreebusy"],
     ),
+    Harness("text_menu", h_text_menu, body_text_menu, classes=["ascii", "non-ascii"], budget={"quick": 60, "thorough": 120},
+            describe="text-match on a SUMMARY / LANGUAGE parameter over every (value, text) pair of a menu of 32 strings with "
+                     "cased non-ASCII letters and letters whose Unicode case mapping expands or lands in ASCII, both collations, "
+                     "negated or not, built through the filter API and through parsed XML: i;ascii-casemap folds a-z only (RFC "
+                     "4790 9.2.1); exhaustive over the menu (inputs on which substring and equality differ are left to the open "
+                     "finding C11-text-match-equality)",
+            encodes=["xandikos.icalendar.TextMatcher.match", "xandikos.icalendar.PropertyFilter.match",
+                     "xandikos.icalendar.ParameterFilter.match", "xandikos.collation.collations", "xandikos.caldav.parse_filter"]),
     Harness("real_corpus", h_real_corpus, body_real_corpus, classes=[("hit", 0), ("miss", 1)], parts={"quick": [0, 1]},
             budget={"quick": 45, "thorough": 90},
             describe="two corpora (9 bodies x 10 filters, 9 x 11) of real iCalendar bodies through the real icalendar parser, the real parse_filter and "
